@@ -243,6 +243,230 @@ theorem encStr_head (s : Bytes) (rest : Bytes) : ∃ c cs, encStr s ++ rest = c 
   simp [encStr, showNat, hcs]
 end
 
+/-! ## the depth-limited decoder (D21) against the grammar decoder -/
+
+/-- the limited decoder does what the grammar decoder does, or refuses (the nesting bound) -/
+def DepthRel {α : Type} (a b : Res α) : Prop := a = b ∨ a = .error .syntax
+
+mutual
+theorem decD_rel (k f : Nat) (inp : Bytes) : DepthRel (decD k f inp) (dec f inp) := by
+  match f, inp with
+  | 0, _ => left; simp [decD, dec]
+  | _+1, [] => left; simp [decD, dec]
+  | f+1, c :: rest =>
+    simp only [decD, dec]
+    by_cases h1 : c = cI
+    · simp only [h1, if_true]; left; rfl
+    · simp only [h1, if_false]
+      by_cases h2 : c = cL
+      · simp only [h2, if_true]
+        match k with
+        | 0 => right; rfl
+        | k+1 =>
+          rcases decListD_rel k f rest with e | e
+          · left; simp only [e]
+          · right; simp only [e]
+      · simp only [h2, if_false]
+        by_cases h3 : c = cD
+        · simp only [h3, if_true]
+          match k with
+          | 0 => right; rfl
+          | k+1 =>
+            rcases decDictD_rel k f rest with e | e
+            · left; simp only [e]
+            · right; simp only [e]
+        · simp only [h3, if_false]; left; trivial
+theorem decListD_rel (k f : Nat) (inp : Bytes) : DepthRel (decListD k f inp) (decList f inp) := by
+  match f, inp with
+  | 0, _ => left; simp [decListD, decList]
+  | _+1, [] => left; simp [decListD, decList]
+  | f+1, c :: rest =>
+    simp only [decListD, decList]
+    by_cases h1 : c = cE
+    · simp only [h1, if_true]; left; trivial
+    · simp only [h1, if_false]
+      rcases decD_rel k f (c :: rest) with e | e
+      · rw [e]
+        cases hd : dec f (c :: rest) with
+        | error er => left; rfl
+        | ok vr =>
+          obtain ⟨v, r⟩ := vr
+          simp only
+          rcases decListD_rel k f r with e2 | e2
+          · left; rw [e2]
+          · right; rw [e2]
+      · right; rw [e]
+theorem decDictD_rel (k f : Nat) (inp : Bytes) : DepthRel (decDictD k f inp) (decDict f inp) := by
+  match f, inp with
+  | 0, _ => left; simp [decDictD, decDict]
+  | _+1, [] => left; simp [decDictD, decDict]
+  | f+1, c :: rest =>
+    simp only [decDictD, decDict]
+    by_cases h1 : c = cE
+    · simp only [h1, if_true]; left; trivial
+    · simp only [h1, if_false]
+      rcases decD_rel k f (c :: rest) with e | e
+      · rw [e]
+        cases hd : dec f (c :: rest) with
+        | error er => left; rfl
+        | ok vr =>
+          obtain ⟨v, r⟩ := vr
+          cases v with
+          | str key =>
+            simp only
+            rcases decD_rel k f r with e2 | e2
+            · rw [e2]
+              cases hd2 : dec f r with
+              | error er => left; rfl
+              | ok vr2 =>
+                obtain ⟨v2, r2⟩ := vr2
+                simp only
+                rcases decDictD_rel k f r2 with e3 | e3
+                · left; rw [e3]
+                · right; rw [e3]
+            · right; rw [e2]
+          | int _ => left; rfl
+          | list _ => left; rfl
+          | dict _ => left; rfl
+      · right; rw [e]
+end
+
+theorem decD_encStr (s : Bytes) (hs : s.length < 2^63) (k f : Nat) (rest : Bytes) :
+    decD k (f+1) (encStr s ++ rest) = .ok (.str s, rest) := by
+  rcases decD_rel k (f+1) (encStr s ++ rest) with e | e
+  · rw [e]; exact dec_encStr s hs f rest
+  · -- a string never hits the nesting bound: unfold once
+    exfalso
+    unfold encStr at e
+    obtain ⟨c, cs, hcs, hd⟩ := natDigits_head s.length
+    have htok := digit_ne_tokens hd
+    have hshow : showNat s.length = c :: cs := hcs
+    rw [hshow] at e
+    simp only [List.cons_append, decD, htok.1, htok.2.1, htok.2.2.1, if_false] at e
+    have hrt := readTerminatedInt_showInt cColon not_digit_colon (by decide) (s.length : Int)
+      (by unfold Decimal.Int64; omega) (s ++ rest)
+    rw [← showNat_eq_showInt, hshow] at hrt
+    simp only [List.cons_append, List.append_assoc] at hrt e
+    rw [hrt] at e
+    have h1 : ¬ ((s.length : Int) < 0) := by omega
+    have h2 : ¬ (s ++ rest).length < s.length := by simp
+    simp only [h1, h2, if_false, Int.toNat_natCast] at e
+    cases e
+
+mutual
+theorem decD_enc (v : BVal) (hv : WF v) (k f : Nat) (rest : Bytes) (hf : cost v ≤ f) (hk : depth v ≤ k)
+    (hsz : (enc v).length < 2^63) :
+    decD k f (enc v ++ rest) = .ok (v, rest) := by
+  match v with
+  | .int i =>
+    match f with
+    | 0 => simp [cost] at hf
+    | f+1 =>
+      simp only [enc, List.cons_append, List.append_assoc, List.nil_append, decD, if_true]
+      rw [readTerminatedInt_showInt cE not_digit_e (by decide) i (by simpa [WF] using hv)]
+  | .str s =>
+    match f with
+    | 0 => simp [cost] at hf
+    | f+1 =>
+      simp only [enc]
+      apply decD_encStr
+      simp only [enc, encStr, List.length_append, List.length_cons] at hsz
+      omega
+  | .list l =>
+    match f, k with
+    | 0, _ => simp [cost] at hf
+    | _+1, 0 => simp [depth] at hk
+    | f+1, k+1 =>
+      simp only [enc, List.cons_append, List.append_assoc, List.nil_append, decD]
+      have hne : cL ≠ cI := by decide
+      simp only [hne, if_false, if_true]
+      have hsz' : (encList l).length < 2^63 := by
+        simp only [enc, List.length_cons, List.length_append] at hsz; omega
+      rw [decListD_enc l (by simpa [WF] using hv) k f rest (by simp only [cost] at hf; omega)
+        (by simp only [depth] at hk; omega) hsz']
+  | .dict d =>
+    match f, k with
+    | 0, _ => simp [cost] at hf
+    | _+1, 0 => simp [depth] at hk
+    | f+1, k+1 =>
+      simp only [enc, List.cons_append, List.append_assoc, List.nil_append, decD]
+      have hne : cD ≠ cI := by decide
+      have hne' : cD ≠ cL := by decide
+      simp only [hne, hne', if_false, if_true]
+      have hw : WFDict d ∧ (d.map (·.1)).Nodup := by simpa [WF] using hv
+      have hsz' : (encDict d).length < 2^63 := by
+        simp only [enc, List.length_cons, List.length_append] at hsz; omega
+      rw [decDictD_enc d hw.1 k f rest (by simp only [cost] at hf; omega) (by simp only [depth] at hk; omega) hsz']
+      simp only [normalize_nodup d hw.2]
+theorem decListD_enc (l : List BVal) (hl : WFList l) (k f : Nat) (rest : Bytes) (hf : costList l ≤ f)
+    (hk : depthList l ≤ k) (hsz : (encList l).length < 2^63) :
+    decListD k f (encList l ++ cE :: rest) = .ok (l, rest) := by
+  match l with
+  | [] =>
+    match f with
+    | 0 => simp [costList] at hf
+    | f+1 => simp [encList, decListD]
+  | v :: vs =>
+    match f with
+    | 0 => simp [costList] at hf
+    | f+1 =>
+      simp only [costList] at hf
+      simp only [depthList] at hk
+      have hw : WF v ∧ WFList vs := by simpa [WFList] using hl
+      simp only [encList, List.length_append] at hsz
+      have h1 := decD_enc v hw.1 k f (encList vs ++ cE :: rest) (by omega) (by omega) (by omega)
+      have h2 := decListD_enc vs hw.2 k f rest (by omega) (by omega) (by omega)
+      obtain ⟨c, cs, hcs, hce⟩ := enc_head v (encList vs ++ cE :: rest)
+      simp only [encList, List.append_assoc]
+      rw [hcs]
+      simp only [decListD, hce, if_false]
+      rw [← hcs, h1]
+      simp only [h2]
+theorem decDictD_enc (d : List (Bytes × BVal)) (hd : WFDict d) (k f : Nat) (rest : Bytes) (hf : costDict d ≤ f)
+    (hk : depthDict d ≤ k) (hsz : (encDict d).length < 2^63) :
+    decDictD k f (encDict d ++ cE :: rest) = .ok (d, rest) := by
+  match d with
+  | [] =>
+    match f with
+    | 0 => simp [costDict] at hf
+    | f+1 => simp [encDict, decDictD]
+  | (key, v) :: r =>
+    match f with
+    | 0 => simp [costDict] at hf
+    | f+1 =>
+      simp only [costDict] at hf
+      simp only [depthDict] at hk
+      have hw : WF v ∧ WFDict r := by simpa [WFDict] using hd
+      simp only [encDict, List.length_append] at hsz
+      have hklen : key.length < 2^63 := by
+        have : key.length ≤ (encStr key).length := by simp [encStr]; omega
+        omega
+      match f, hf with
+      | 0, hf => omega
+      | f+1, hf =>
+        have h0 := decD_encStr key hklen k f (enc v ++ (encDict r ++ cE :: rest))
+        have h1 := decD_enc v hw.1 k (f+1) (encDict r ++ cE :: rest) (by omega) (by omega) (by omega)
+        have h2 := decDictD_enc r hw.2 k (f+1) rest (by omega) (by omega) (by omega)
+        obtain ⟨c, cs, hcs, hce⟩ := encStr_head key (enc v ++ (encDict r ++ cE :: rest))
+        simp only [encDict, List.append_assoc]
+        rw [hcs]
+        simp only [decDictD, hce, if_false]
+        rw [← hcs, h0]
+        simp only [h1, h2]
+end
+
+/-- whatever the limited decoder returns as a value, the grammar decoder returns too -/
+theorem decD_sound (k f : Nat) (inp : Bytes) (r : BVal × Bytes) (h : decD k f inp = .ok r) : dec f inp = .ok r := by
+  rcases decD_rel k f inp with e | e
+  · rw [← e]; exact h
+  · rw [e] at h; cases h
+
+/-- the limited decoder runs out of fuel only if the grammar decoder does -/
+theorem decD_fuel (k f : Nat) (inp : Bytes) (h : decD k f inp = .error .fuel) : dec f inp = .error .fuel := by
+  rcases decD_rel k f inp with e | e
+  · rw [← e]; exact h
+  · rw [e] at h; cases h
+
 /-! ## cost is bounded by the encoded length -/
 
 mutual
@@ -622,5 +846,124 @@ theorem allocOK (f : Nat) : AllocOK f := by
                   simp only [hr4, Except.ok.injEq, Prod.mk.injEq] at h
                   obtain ⟨rfl, rfl⟩ := h
                   simp only [allocDict, allocOf] at h1 ⊢; omega
+
+/-! ## the limited decoder never returns (hence never descends into) more than `k` nested containers -/
+
+theorem depthDict_insert (k : Bytes) (v : BVal) (acc : List (Bytes × BVal)) :
+    depthDict (insert k v acc) ≤ max (depth v) (depthDict acc) := by
+  induction acc with
+  | nil => simp [insert, depthDict]
+  | cons p ps ih =>
+    obtain ⟨k', v'⟩ := p
+    simp only [insert]
+    split
+    · simp only [depthDict]; omega
+    · simp only [depthDict]; omega
+
+theorem depthDict_foldl (d acc : List (Bytes × BVal)) :
+    depthDict (d.foldl (fun acc p => insert p.1 p.2 acc) acc) ≤ max (depthDict acc) (depthDict d) := by
+  induction d generalizing acc with
+  | nil => simp [depthDict]
+  | cons p ps ih =>
+    obtain ⟨k, v⟩ := p
+    simp only [List.foldl_cons, depthDict]
+    have h1 := ih (insert k v acc)
+    have h2 := depthDict_insert k v acc
+    omega
+
+theorem depthDict_normalize (d : List (Bytes × BVal)) : depthDict (normalize d) ≤ depthDict d := by
+  have := depthDict_foldl d []
+  simpa [normalize, depthDict] using this
+
+mutual
+theorem decD_depth (k f : Nat) (inp : Bytes) (v : BVal) (r : Bytes) (h : decD k f inp = .ok (v, r)) : depth v ≤ k := by
+  match f, inp with
+  | 0, _ => simp [decD] at h
+  | _+1, [] => simp [decD] at h
+  | f+1, c :: rest =>
+    simp only [decD] at h
+    by_cases h1 : c = cI
+    · simp only [h1, if_true] at h
+      split at h
+      · cases h
+      · cases h; simp [depth]
+    · simp only [h1, if_false] at h
+      by_cases h2 : c = cL
+      · simp only [h2, if_true] at h
+        match k with
+        | 0 => simp at h
+        | k+1 =>
+          simp only at h
+          split at h
+          · cases h
+          · rename_i l r' hl
+            cases h
+            have := decListD_depth k f rest l _ hl
+            simp only [depth]; omega
+      · simp only [h2, if_false] at h
+        by_cases h3 : c = cD
+        · simp only [h3, if_true] at h
+          match k with
+          | 0 => simp at h
+          | k+1 =>
+            simp only at h
+            split at h
+            · cases h
+            · rename_i d r' hd
+              cases h
+              have := decDictD_depth k f rest d _ hd
+              have := depthDict_normalize d
+              simp only [depth]; omega
+        · simp only [h3, if_false] at h
+          split at h
+          · cases h
+          · split at h
+            · cases h
+            · split at h
+              · cases h
+              · cases h; simp [depth]
+theorem decListD_depth (k f : Nat) (inp : Bytes) (l : List BVal) (r : Bytes) (h : decListD k f inp = .ok (l, r)) : depthList l ≤ k := by
+  match f, inp with
+  | 0, _ => simp [decListD] at h
+  | _+1, [] => simp [decListD] at h
+  | f+1, c :: rest =>
+    simp only [decListD] at h
+    by_cases h1 : c = cE
+    · simp only [h1, if_true] at h; cases h; simp [depthList]
+    · simp only [h1, if_false] at h
+      split at h
+      · cases h
+      · rename_i v r1 hv
+        split at h
+        · cases h
+        · rename_i vs r2 hvs
+          cases h
+          have a := decD_depth k f (c :: rest) v r1 hv
+          have b := decListD_depth k f r1 vs _ hvs
+          simp only [depthList]; omega
+theorem decDictD_depth (k f : Nat) (inp : Bytes) (d : List (Bytes × BVal)) (r : Bytes) (h : decDictD k f inp = .ok (d, r)) : depthDict d ≤ k := by
+  match f, inp with
+  | 0, _ => simp [decDictD] at h
+  | _+1, [] => simp [decDictD] at h
+  | f+1, c :: rest =>
+    simp only [decDictD] at h
+    by_cases h1 : c = cE
+    · simp only [h1, if_true] at h; cases h; simp [depthDict]
+    · simp only [h1, if_false] at h
+      split at h
+      · cases h
+      · rename_i key r1 hk
+        split at h
+        · cases h
+        · rename_i v r2 hv
+          split at h
+          · cases h
+          · rename_i ps r3 hps
+            cases h
+            have a := decD_depth k f r1 v r2 hv
+            have b := decDictD_depth k f r2 ps _ hps
+            simp only [depthDict]; omega
+      · cases h
+end
 
 end Bencode
